@@ -157,8 +157,7 @@ async def run_case(part, m, name, fault, k, others, explore=False):
         moving = info.get('moving', [])
         single = moving[0] if len(moving) == 1 else None
         mstate = None
-        # the Faults model has no "second session copies the very message being moved" label: those runs are judged by the monitors only
-        model_on = single is not None and fault != 'raise' and not any(op.startswith(b'b COPY 1 ') for ops in others.values() for op in ops)
+        model_on = single is not None and fault != 'raise'
         if model_on:
             mstate = m.ask(f"faults reset {','.join(map(str, before['INBOX']))} {','.join(map(str, before['other'])) or '-'}")
         last = (single in before['INBOX'], single in before['other']) if single else None
@@ -166,6 +165,7 @@ async def run_case(part, m, name, fault, k, others, explore=False):
         cut = False
         mutated_before_cut = False
         promised = []
+        n_promised = 0
         while 's0' in sched.parked:
             # the second session's operations at this park point
             for op in others.get(parks, []):
@@ -177,6 +177,13 @@ async def run_case(part, m, name, fault, k, others, explore=False):
                 mm = re.search(rb'b OK \[APPENDUID \d+ (\d+)\]', raw_b)
                 if mm:
                     promised.append((int(mm.group(1)), 21, op[:20]))
+                if model_on:
+                    # whatever the second session put into the destination (label otherCopyDst of the Faults model)
+                    for d_, cid_, op_ in promised[n_promised:]:
+                        r_ = m.ask(f'faults step 1 {single} ocopy {cid_}')
+                        if r_ != 'DISABLED':
+                            mstate = r_
+                n_promised = len(promised)
                 if model_on:
                     now = await dump(srv)
                     if single not in now['INBOX'] and last[0] and not (single in now['other'] and not last[1]):
